@@ -80,6 +80,32 @@ def check_bch(ctx: Ctx, c: Dict[str, Any]) -> None:
             ctx.violation(dict(op="lie_bracket", what="unit_spacing", **sig0), "lie_bracket with spacing=1 is not the per-sample derivative bracket", c)
     except Exception as ex:
         ctx.violation(dict(op="lie_bracket", exc=type(ex).__name__, what="default_spacing", **sig0), f"lie_bracket raised {ex}", c)
+    # Gaussian pre-smoothing: both Jacobians are taken from smoothed fields - the bracket stays antisymmetric and [u, u] = 0
+    try:
+        bs = U.lie_bracket(v, u, mode="forward_central_backward", spacing=sp, sigma=1.0)
+        bt = U.lie_bracket(u, v, mode="forward_central_backward", spacing=sp, sigma=1.0)
+        if max_err(bs, -bt) > 1e-7 * max(1.0, float(bs.abs().max())):
+            ctx.violation(dict(op="lie_bracket", what="antisymmetry_sigma", **sig0), f"lie_bracket(sigma=1) is not antisymmetric (off by {max_err(bs, -bt):.3g})", c)
+        bu = U.lie_bracket(u, u, mode="forward_central_backward", spacing=sp, sigma=1.0)
+        if float(bu.abs().max()) > 1e-7:
+            ctx.violation(dict(op="lie_bracket", what="self_bracket_sigma", **sig0), f"lie_bracket(u, u, sigma=1) = {float(bu.abs().max()):.3g}, not zero", c)
+    except Exception as ex:
+        ctx.violation(dict(op="lie_bracket", exc=type(ex).__name__, what="sigma", **sig0), f"lie_bracket(sigma=1) raised {ex}", c)
+    # change of units: with x' = C x (C diagonal), u' = C u and spacing' = C spacing every bracket - hence the whole BCH series - transforms like a vector
+    try:
+        cf = torch.tensor([2.0, 0.5, 3.0][:D], dtype=u.dtype).reshape(1, D, *([1] * D))
+        sp2 = [a * b for a, b in zip(sp if isinstance(sp, (list, tuple)) else [sp] * D, [2.0, 0.5, 3.0][:D])]
+        w1 = U.compose_svfs(u, v, mode="forward_central_backward", spacing=sp, bch_terms=3)
+        w2 = U.compose_svfs(u * cf, v * cf, mode="forward_central_backward", spacing=sp2, bch_terms=3)
+        if max_err(w2, w1 * cf) > 1e-7 * max(1.0, float(w1.abs().max())):
+            ctx.violation(dict(op="compose_svfs", what="unit_covariance", **sig0),
+                          f"compose_svfs is not covariant under a change of units (fields and spacing scaled by {[2.0, 0.5, 3.0][:D]}): off by {max_err(w2, w1 * cf):.3g}", c)
+        b1 = U.lie_bracket(v, u, mode="forward_central_backward", spacing=sp)
+        b2 = U.lie_bracket(v * cf, u * cf, mode="forward_central_backward", spacing=sp2)
+        if max_err(b2, b1 * cf) > 1e-7 * max(1.0, float(b1.abs().max())):
+            ctx.violation(dict(op="lie_bracket", what="unit_covariance", **sig0), f"lie_bracket is not covariant under a change of units: off by {max_err(b2, b1 * cf):.3g}", c)
+    except Exception as ex:
+        ctx.violation(dict(op="compose_svfs", exc=type(ex).__name__, what="unit_covariance", **sig0), f"compose_svfs with scaled units raised {ex}", c)
     for terms in range(6):
         exp = hom_field(n, ac, c["bch"][terms])
         margin = 0
